@@ -30,6 +30,8 @@ Ladder(o) ==
                    RUt("GEN", "Cold", TMin + 100, TMin + 110) >>            \*   but inside the 1 K matching window (native embedding)
     [] o = 4 -> << RUt("HW", "Hot", TMin + 250, TMin + 150),                \* gliding utilities
                    RUt("CW", "Cold", TMin - 100, TMin - 50) >>
+    [] o = 5 -> << RUt("USE", "Hot", TMin + 30, TMin + 20),                 \* for the fine lattice {120,130,140}: use at 150->140,
+                   RUt("GEN", "Cold", TMin - 20, TMin - 10) >>              \*   generation at 100->110 (0.4 K below, inside the 1 K window)
 
 (* ---- transformation group (definitional) ---- *)
 Rev(s) == [i \in 1..Len(s) |-> s[Len(s) + 1 - i]]
